@@ -47,7 +47,7 @@ class Tagger:
         return b"".join(self.vals[int(t)] for t in np.asarray(tags).ravel())
 
 
-VARIANTS = ["plain", "n_eq_dim", "empty_grid", "no_eul", "eulerian_field_io"]
+VARIANTS = ["plain", "n_eq_dim", "empty_grid", "no_eul", "eulerian_field_io", "mixed_dtype"]
 
 
 def make_registry(r, dim, real_t, variant):
@@ -77,7 +77,11 @@ def make_registry(r, dim, real_t, variant):
         grids.append((f"grid{gi}" if r.random() < 0.7 else None, garr, fields))
     dx = float(r.uniform(0.01, 1.0))
     desc = {"dim": dim, "grid": grid, "eul": eul, "grids": grids, "origin": r.normal(size=dim), "dx": np.full(dim, dx),
-            "time": float(r.uniform(0, 10)), "real_t": real_t}
+            "time": float(r.uniform(0, 10)), "real_t": real_t, "reg_t": real_t}
+    if variant == "mixed_dtype":
+        # the registry's declared precision differs from the precision of the registered arrays (a single-precision flow
+        # simulation coupled to double-precision body arrays, and the converse): what is stored is the array, bit for bit
+        desc["reg_t"] = np.float32 if real_t == np.float64 else np.float64
     if variant == "eulerian_field_io":
         # written through the convenience class EulerianFieldIO (position field in x-y-z component order, lower corners that
         # differ between the axes), read back through the base class with the origin given in z-y-x (array-axis) order
@@ -102,7 +106,7 @@ def build_io(desc, fresh=False):
         arrays = {("eul", name): arr.copy() for name, kind, arr in desc["eul"]}
         io = spu.EulerianFieldIO(position_field=desc["pos"].copy(), eulerian_fields_dict={name: arrays[("eul", name)] for name, _, _ in desc["eul"]})
         return io, arrays
-    io = spu.IO(dim=desc["dim"], real_dtype=desc["real_t"])
+    io = spu.IO(dim=desc["dim"], real_dtype=desc.get("reg_t", desc["real_t"]))
     arrays = {}
     if desc["eul"] or desc.get("define_eul", True):
         io.define_eulerian_grid(origin=np.array(desc["origin"]), dx=np.array(desc["dx"]), grid_size=np.array(desc["grid"]))
@@ -242,7 +246,7 @@ def _malformed_case(kind, i, r, tmp, path, file_ds, desc, variant, mal_reqs, mal
 
 
 def run(seed=0, tier="quick"):
-    n = 10 if tier == "quick" else 40
+    n = 12 if tier == "quick" else 48
     tmp = tempfile.mkdtemp(prefix="iocorr", dir=os.path.join(harness.ROOT, ".cache"))
     res = {"ok": True, "cases": 0, "samples": [], "name": "Model/IO vs sopht.utils.IO (save layout, load, malformed files)",
            "malformed": {}, "variants": {}}
@@ -250,7 +254,7 @@ def run(seed=0, tier="quick"):
         reqs, ctx = [], []
         for i in range(n):
             r = impl.rng(seed, "io", i)
-            dim = 2 + i % 2
+            dim = 2 + (i // len(VARIANTS) + i % len(VARIANTS)) % 2
             real_t = [np.float64, np.float32][(i // 2) % 2]
             variant = VARIANTS[i % len(VARIANTS)]
             desc = make_registry(r, dim, real_t, variant)
@@ -280,7 +284,7 @@ def run(seed=0, tier="quick"):
                 t = line.split(" ")
                 if t[0] == "ds":
                     model_ds[t[1]] = parse_arr(t[2:])
-            label = {"dim": desc["dim"], "dtype": desc["real_t"].__name__, "variant": variant,
+            label = {"dim": desc["dim"], "dtype": desc["real_t"].__name__, "registry_dtype": desc.get("reg_t", desc["real_t"]).__name__, "variant": variant,
                      "eulerian": [(n_, k_) for n_, k_, _ in desc["eul"]],
                      "grids": [(g_ or "auto", a_.shape[1], [(f_[0], f_[1]) for f_ in fs_]) for g_, a_, fs_ in desc["grids"]]}
             if set(model_ds) != set(file_ds):
@@ -373,14 +377,14 @@ def run(seed=0, tier="quick"):
 
 def oracle(seed=0, tier="quick", aimed=None):
     """C17's observable statements on the implementation alone (layout rules written here from the property text)"""
-    n = 10 if tier == "quick" else 60
+    n = 12 if tier == "quick" else 60
     tmp = tempfile.mkdtemp(prefix="iooracle", dir=os.path.join(harness.ROOT, ".cache"))
     cases = 0
     samples = []
     try:
         for i in range(n):
             r = impl.rng(seed + 5, "io-oracle", i)
-            dim = 2 + i % 2
+            dim = 2 + (i // len(VARIANTS) + i % len(VARIANTS)) % 2
             real_t = [np.float64, np.float32][(i // 2) % 2]
             variant = VARIANTS[i % len(VARIANTS)]
             desc = make_registry(r, dim, real_t, variant)
@@ -389,7 +393,7 @@ def oracle(seed=0, tier="quick", aimed=None):
             path = os.path.join(tmp, f"o{i}.h5")
             io.save(path, time=desc["time"])
             ds, ftime, fparams = dump_h5(path)
-            info = {"dim": dim, "dtype": real_t.__name__, "variant": variant}
+            info = {"dim": dim, "dtype": real_t.__name__, "registry_dtype": desc["reg_t"].__name__, "variant": variant}
             if desc.get("via"):
                 info.update(written_by=desc["via"], lower_corner_xyz=desc["corner_xyz"], grid=list(desc["grid"]))
             cases += 1
@@ -473,16 +477,19 @@ def oracle(seed=0, tier="quick", aimed=None):
         # convenience classes
         import elastica as ea
         rod = ea.CosseratRod.straight_rod(5, np.zeros(3), np.array([1.0, 0, 0]), np.array([0, 0, 1.0]), 1.0, 0.05, 1000.0, youngs_modulus=1e6, shear_modulus=4e5)
-        for dim in (2, 3):
-            rio = spu.CosseratRodIO(rod, dim=dim)
-            p = os.path.join(tmp, f"rod{dim}.h5")
+        rod.position_collection[...] += impl.rng(seed, "rodpos").normal(size=rod.position_collection.shape) * 1e-3   # not representable in float32
+        for dim, reg_t in ((2, np.float64), (3, np.float64), (2, np.float32), (3, np.float32)):
+            rio = spu.CosseratRodIO(rod, dim=dim, real_dtype=reg_t)
+            p = os.path.join(tmp, f"rod{dim}{reg_t.__name__}.h5")
             rio.save(p, time=1.5)
             ds, t, _ = dump_h5(p)
             cases += 1
             g = ds.get("Lagrangian/rod/Grid")
             want = 0.5 * (rod.position_collection[:dim, 1:] + rod.position_collection[:dim, :-1])
-            if g is None or g.shape != (5, dim) or not np.array_equal(g, want.T):
-                return {"ok": False, "cases": cases, "samples": samples, "failing_input": {"oracle": "c17_rod_io", "dim": dim}}
+            if g is None or g.shape != (5, dim) or np.ascontiguousarray(g).tobytes() != np.ascontiguousarray(want.T).tobytes():
+                return {"ok": False, "cases": cases, "samples": samples, "failing_input": {
+                    "oracle": "c17_rod_io", "dim": dim, "registry_dtype": reg_t.__name__, "array_dtype": str(want.dtype),
+                    "stored_dtype": None if g is None else str(g.dtype), "what": "element positions in the file are not the rod's, bit for bit"}}
         x = np.linspace(0.05, 0.95, 6); y = np.linspace(-0.35, 0.15, 4)
         pos = np.flipud(np.array(np.meshgrid(y, x, indexing="ij")))
         w = np.arange(24.0).reshape(4, 6)
